@@ -256,9 +256,7 @@ impl SpendType {
     pub fn from_script_pubkey(script: &ScriptBuf) -> (r: SpendType) ensures r == spend_type_of(*script) { unimplemented!() }
 }
 // `stack.iter().map(|v| 1 + v.len()).sum()`: one length byte per element plus the element
-pub open spec fn stack_wit_len(stack: Seq<Vec<u8>>) -> nat decreases stack.len() {
-    if stack.len() == 0 { 0 } else { stack_wit_len(stack.drop_last()) + 1 + stack.last()@.len() }
-}
+pub open spec fn stack_wit_len(stack: Seq<Vec<u8>>) -> nat { sum_wit_elems(stack) }
 pub open spec fn wit_len_of(uck: Option<(SecretKey, Vec<Vec<u8>>)>) -> nat {
     match uck { Some(ks) => stack_wit_len(ks.1@), None => 33 }
 }
@@ -270,10 +268,6 @@ pub open spec fn sum_wit_elems(stack: Seq<Vec<u8>>) -> nat decreases stack.len()
 }
 #[verifier::external_body]
 pub fn vx_stack_wit_len(stack: &Vec<Vec<u8>>) -> (r: usize) ensures r == sum_wit_elems(stack@), r < 0x1_0000_0000 { unimplemented!() }
-pub proof fn lemma_sum_wit_elems(stack: Seq<Vec<u8>>) ensures sum_wit_elems(stack) == stack_wit_len(stack) decreases stack.len()
-{
-    if stack.len() > 0 { lemma_sum_wit_elems(stack.drop_last()); }
-}
 pub open spec fn weight_lb(tx: Transaction, ucks: Seq<Option<(SecretKey, Vec<Vec<u8>>)>>, prev: Seq<TxOut>, k: int) -> nat decreases k {
     if k <= 0 { tx_weight(tx) }
     else { weight_lb(tx, ucks, prev, k - 1) + (if spend_type_of(prev[k - 1].script_pubkey) is Invalid { 0nat } else { 77 + wit_len_of(ucks[k - 1]) }) }
@@ -356,8 +350,6 @@ impl VxNodeOn {
         }
 //@proof before /let validator = self\.validator\(\);/ #1
         proof { assert(channels@ =~= funded_slots(self.channels, *tx)); }
-//@proof before /weight_lower_bound \+= 2 \+ 1/
-                proof { match uck { Some(ks) => { lemma_sum_wit_elems(ks.1@); }, None => {} } }
 //@proof before /let non_beneficial_sat = /
         proof { assert(values_sat@ =~= values_of(prev_outs@)); }
 //@sub /(?s)let channels: Vec<Option<VxSlot>> = \(0\.\.tx\.output\.len\(\)\)\s*\.map\(\|ndx\| \{.*?\}\)\s*\.collect\(\);/ => let channels: Vec<Option<VxSlot>> = vx_funded_slots(&channels_lock, txid, tx);
